@@ -44,8 +44,9 @@ def fp(x):
     return repr(x)
 
 
-def mutables(x, acc, keep, path="$"):
-    """id -> path of the mutable Python objects reachable from x (objects are appended to `keep` so that they stay alive)"""
+def mutables(x, acc, keep, path="$", allp=None):
+    """id -> path of the mutable Python objects reachable from x (objects are appended to `keep` so that they stay alive);
+    `allp`, if given, receives every path under which an object is reachable (id -> [paths])"""
     from qiskit.circuit import QuantumCircuit, Instruction
     from qiskit.quantum_info import PauliList
     from qiskit_addon_cutting.qpd import QPDBasis
@@ -53,6 +54,8 @@ def mutables(x, acc, keep, path="$"):
     def note(o, p):
         keep.append(o)
         acc.setdefault(id(o), p)
+        if allp is not None:
+            allp.setdefault(id(o), []).append(p)
     if isinstance(x, QuantumCircuit):
         note(x, path)
         if isinstance(x.metadata, dict) and x.metadata:
@@ -61,12 +64,12 @@ def mutables(x, acc, keep, path="$"):
                 if isinstance(mv, (list, dict)):
                     note(mv, path + ".metadata[%r]" % (mk,))
         for k, i in enumerate(x.data):
-            mutables(i.operation, acc, keep, path + ".data[%d].op" % k)
+            mutables(i.operation, acc, keep, path + ".data[%d].op" % k, allp)
     elif isinstance(x, Instruction):
         keep.append(x)
         if hasattr(x, "basis"):
             note(x, path)
-            mutables(x.basis, acc, keep, path + ".basis")
+            mutables(x.basis, acc, keep, path + ".basis", allp)
         elif getattr(x, "mutable", True):
             if x.params:
                 note(x, path)
@@ -83,23 +86,23 @@ def mutables(x, acc, keep, path="$"):
                 if isinstance(side, list):
                     note(side, path + ".maps[%d][%d]" % (a, s))
                 for o, op in enumerate(side):
-                    mutables(op, acc, keep, path + ".maps[%d][%d][%d]" % (a, s, o))
+                    mutables(op, acc, keep, path + ".maps[%d][%d][%d]" % (a, s, o), allp)
     elif isinstance(x, PauliList):
         note(x, path)
     elif isinstance(x, dict):
         note(x, path)
         for k, v in x.items():
-            mutables(v, acc, keep, path + "[%r]" % (k,))
+            mutables(v, acc, keep, path + "[%r]" % (k,), allp)
     elif isinstance(x, (list, tuple)):
         if isinstance(x, list):
             note(x, path)
         for k, v in enumerate(x):
-            mutables(v, acc, keep, path + "[%d]" % k)
+            mutables(v, acc, keep, path + "[%d]" % k, allp)
     elif hasattr(x, "subcircuits") and hasattr(x, "bases"):
-        mutables(x.subcircuits, acc, keep, path + ".subcircuits")
-        mutables(list(x.bases), acc, keep, path + ".bases")
+        mutables(x.subcircuits, acc, keep, path + ".subcircuits", allp)
+        mutables(list(x.bases), acc, keep, path + ".bases", allp)
         if x.subobservables is not None:
-            mutables(x.subobservables, acc, keep, path + ".subobservables")
+            mutables(x.subobservables, acc, keep, path + ".subobservables", allp)
 
 
 def pauli_arrays(x, path="$"):
@@ -137,6 +140,27 @@ def classify(out_path, in_path):
     return "other:" + o + "<-" + i
 
 
+def shared_classes(ina, outa, outall):
+    """{class: (out path, in path, [ids])} of the objects reachable from both the arguments and the result.  Class S1 (the basis of a
+    pre-placed placeholder) covers the parts of a basis only where the enclosing basis object itself is the caller's: a coefficient
+    list or map list that is shared although the basis around it is a different object is its own class."""
+    by_path = {p: i for i, ps in outall.items() for p in ps}
+    classes = {}
+    for i, op in outa.items():
+        if i not in ina:
+            continue
+        c = classify(op, ina[i])
+        if c == "S1":
+            for q in outall.get(i, [op]):
+                if ".basis" in q:
+                    parent = by_path.get(q[: q.rindex(".basis") + len(".basis")])
+                    if parent is not None and parent not in ina:
+                        c, op = "other:detached:" + norm(q) + "<-" + norm(ina[i]), q
+                        break
+        classes.setdefault(c, (op, ina[i], []))[2].append(i)
+    return classes
+
+
 def audit(fn, args, keep):
     """run fn(*args); returns (result, mutated?, {class: example})"""
     before = [fp(a) for a in args]
@@ -145,12 +169,9 @@ def audit(fn, args, keep):
         mutables(a, ina, keep, "arg%d" % k)
     out = fn(*args)
     after = [fp(a) for a in args]
-    outa = {}
-    mutables(out, outa, keep, "out")
-    classes = {}
-    for i, op in outa.items():
-        if i in ina:
-            classes.setdefault(classify(op, ina[i]), (op, ina[i]))
+    outa, outall = {}, {}
+    mutables(out, outa, keep, "out", outall)
+    classes = {c: v[:2] for c, v in shared_classes(ina, outa, outall).items()}
     # observables: returned Pauli lists must not be numpy views of the caller's (or of each other)
     in_arr = [pa for k, a in enumerate(args) for pa in pauli_arrays(a, "arg%d" % k)]
     out_arr = pauli_arrays(out, "out")
